@@ -5,6 +5,7 @@
 #include <unordered_map>
 #include <deque>
 #include <type_traits>
+#include <initializer_list>
 #include <string>
 
 namespace vrt {
@@ -145,6 +146,20 @@ struct TrackedNX {
     TrackedNX& operator=(const TrackedNX&) = default;
     TrackedNX(TrackedNX&& o) noexcept : t(o.t.read_any()) { o.t.mark_moved(); }
     TrackedNX& operator=(TrackedNX&& o) noexcept { t.set(o.t.read_any()); if (&o != this) o.t.mark_moved(); return *this; }
+    uint64_t read() const { return t.read(); }
+    void set(uint64_t v) { t.set(v); }
+    void or_bits(uint64_t b) { t.or_bits(b); }
+    uint64_t peek() const { return t.peek(); }
+};
+// A payload with an initializer_list constructor (JSON-like / container-like types): `T{x}` and `T(x)` are different constructors for it.
+struct TrackedIL {
+    Tracked t;
+    bool from_list = false;
+    TrackedIL() = default;
+    explicit TrackedIL(uint64_t v) : t(v) {}
+    TrackedIL(std::initializer_list<TrackedIL> il) : t(uint64_t(0xBADBAD00) + il.size()), from_list(true) {}
+    TrackedIL(const TrackedIL&) = default;
+    TrackedIL& operator=(const TrackedIL&) = default;
     uint64_t read() const { return t.read(); }
     void set(uint64_t v) { t.set(v); }
     void or_bits(uint64_t b) { t.or_bits(b); }
